@@ -1,6 +1,6 @@
 SPECIFICATION Spec
 CONSTANT Depth = 3
-CONSTANT Assume = {"A", "B", "C", "D"}
+CONSTANT Assume = {"C", "D"}
 CONSTRAINT Bound
 VIEW View
 INVARIANT Accepted
